@@ -119,7 +119,8 @@ pub fn check(thorough: bool, _seed: u64) -> Check {
         body: Box::new(move |unit, cx| {
             let n = unit + 1;
             let c: Vec<f64> = if cx.choose(2) == 0 {
-                LANE_ID[..n].to_vec()
+                let sc = [1.0, 8.673617379884035e-19, 1099511627776.0][cx.choose(3)];
+                LANE_ID[..n].iter().map(|v| v * sc).collect()
             } else {
                 let w = if n <= 6 { 8 } else if thorough { 6 } else { 4 };
                 (0..n).map(|_| COEF[cx.choose(w)]).collect()
@@ -134,11 +135,18 @@ pub fn check(thorough: bool, _seed: u64) -> Check {
             by_degree!(unit, leaf(&c, cx))
         }),
         classes: vec![("degree_0", true), ("degree>=1", true)],
-        bounds: json!({"degrees": "0..8", "coefficients": format!("lane-identifier vector + cube over the first w of {{0,1,-1,0.1,-1/3,7.25e5,pi,1e-9}}: w=8 up to degree 5, w={} above", if thorough {6} else {4}),
+        bounds: json!({"degrees": "0..8", "coefficients": format!("lane-identifier vector (also scaled by 2^-60 and 2^40) + cube over the first w of {{0,1,-1,0.1,-1/3,7.25e5,pi,1e-9}}: w=8 up to degree 5, w={} above", if thorough {6} else {4}),
             "arguments": "{-2.5,0.3,7,0}", "oracle": "exact dyadic (i+1)*c_(i+1)"}),
     };
     let mut sh = shapes(&[1.0, 2.0, 3.0, 4.0], 4);
     sh.extend(shapes(&[-f64::MAX, -0.0, 0.0, 5e-324, f64::INFINITY], 3));
+    for n in [6usize, 9, 17] {
+        let mut e: Vec<f64> = (1..=n).map(|i| i as f64).collect();
+        sh.push(e.clone());
+        e[n / 2] = e[n / 2 - 1];
+        e[n - 1] = e[n - 2];
+        sh.push(e);
+    }
     let ns = sh.len();
     let sh = Arc::new(sh);
     let piecewise = Phase {
@@ -161,7 +169,7 @@ pub fn check(thorough: bool, _seed: u64) -> Check {
             }
         }),
         classes: vec![],
-        bounds: json!({"shapes": "end lists of length 1..4 over {1..4} and 1..3 over {-MAX,-0.0,+0.0,5e-324,+inf}", "piece_types": "Poly0, Poly1, Poly4, Poly8"}),
+        bounds: json!({"shapes": "end lists of length 1..4 over {1..4}, 1..3 over {-MAX,-0.0,+0.0,5e-324,+inf}, and 1..n for n=6,9,17 plain and with duplicate runs", "piece_types": "Poly0, Poly1, Poly4, Poly8"}),
     };
     Check {
         id: "C08",
